@@ -1474,6 +1474,17 @@ impl<'a, 'b> B<'a, 'b> {
                         self.type_ref();
                         self.op(";");
                     }
+                    // records with methods (before any variant part)
+                    if !self.opts.simple && self.t.chance(1, 4) {
+                        self.tag("record-methods");
+                        let k = 1 + self.t.below(2);
+                        for _ in 0..k {
+                            self.nl();
+                            let mfirst = self.p.toks.len() as u32;
+                            self.method_header(true);
+                            self.mark(mfirst, first, 0);
+                        }
+                    }
                     self.depth -= 1;
                     if self.t.chance(if self.opts.decl_heavy { 2 } else { 1 }, 3) {
                         self.tag("variant-record");
